@@ -1071,6 +1071,9 @@ def main():
         meths = []
         mmeta = {}
         meta_assigned = []
+        meta_assigned_r = []
+        meta_derivs = []
+        meta_pads = False
         for fname, (ret, body, params) in sorted(cls.bodies.items()):
             lw = Lower(world, cls, mids)
             ptoks = [t for t in params]
@@ -1091,8 +1094,13 @@ def main():
             mid = lw.mid(fname)
             meths.append('{| m_id := %d; m_ret := %s; m_body := %s |}' % (mid, 'Some %s' % rt if rt else 'None', ir))
             mmeta[fname] = mid
+            if fname == 'read':
+                meta_assigned_r = [int(x) for x in re.findall(r'SAssign (\d+)', ir)]
             if fname == 'write':
                 meta_assigned = [int(x) for x in re.findall(r'SAssign (\d+)', ir)]
+                for mm in re.finditer(r'SAssign (\d+) \(ECast (\w+) \((?:ESize (\d+)|EBin OMul \(ESize (\d+)\) \(ESizeofT (\d+)\))\)\)', ir):
+                    meta_derivs.append([int(mm.group(1)), mm.group(2), int(mm.group(3) or mm.group(4)), int(mm.group(5) or 1)])
+                meta_pads = 'SZero' in ir
         ctor = ctor_consts(world, cls)
         defs.append('Definition c_%s : cdef := {|\n  c_id := %d; c_name := "%s";\n  c_bases := [%s];\n  c_fields := [\n    %s];\n  c_members := [%s];\n  c_ctor := [%s];\n  c_methods := [\n    %s] |}.\n' % (
             n, cls.idx, n, '; '.join(str(world.classes[b].idx) for b in cls.bases if b in world.classes),
@@ -1100,7 +1108,7 @@ def main():
             ';\n    '.join(meths)))
         meta['classes'][n] = {'idx': cls.idx, 'bases': [b for b in cls.bases if b in world.classes], 'fields': mfields,
                               'members': [{'name': m.name, 'cls': m.kind[1], 'shift': m.shift} for m in cls.members if m.kind[0] == 'struct'],
-                              'methods': mmeta, 'assigned_in_write': meta_assigned, 'ctor': ctor, 'final': cls.final, 'header': cls.header,
+                              'methods': mmeta, 'assigned_in_write': meta_assigned, 'assigned_in_read': meta_assigned_r, 'derivs': meta_derivs, 'pads': meta_pads, 'ctor': ctor, 'final': cls.final, 'header': cls.header,
                               'has_default_ctor': cls.ctor is None or not [t for t in cls.ctor[0] if t.kind != 'eof']}
     # pseudo classes for struct members (shifted copies of the field tables)
     for K, cls, m, sub in pseudo:
